@@ -11,6 +11,7 @@ interleavings share one state; the shape of Put comes from the regenerated facts
   putn <count> <hex|->   (count Puts of the same message; answers like the last one)
   putfail <hex|->        putfailgen <start> <len>   (Put under a one-shot data AcquirePage fault)
   g-snap   g-read   g-truncdata   g-truncindex      (the steps of one GC call)
+  setapp <s>                                        (SetAppendedSeq)
 -/
 import LinVerif.Util.Proto
 import LinVerif.Model.Queue
@@ -139,6 +140,14 @@ def step (d : DSt) (ws : List String) : DSt × String :=
     match a.toNat?, b.toNat? with
     | some start, some len => seqPutFail d (Msg.gen start len)
     | _, _ => (d, "bad-op")
+  | ["setapp", x] =>
+    match x.toInt? with
+    | some v =>
+      if d.σ.busy ≠ 0 then (d, "not-enabled") else
+      match d.σ.gc with
+      | .idle => let st := setAppended d.σ.st v; ({ d with σ := withSt d.σ st }, "ok " ++ showQ st.q)
+      | _ => (d, "not-enabled")
+    | none => (d, "bad-op")
   | ["g-snap"] => gcStep d shape .gcSnap
   | ["g-read"] => gcStep d shape .gcRead
   | ["g-truncdata"] => gcStep d shape .gcTruncData
